@@ -118,7 +118,32 @@ def rules(ctx: Ctx) -> None:
     c, inst = find_loader(prog)
     containers = find_containers(prog, c)
     ctx.floor("per-thread state containers created in the loader's __init__", len(containers), 1)
-    ident = find_ident_fn(prog, c)
+    try:
+        ident = find_ident_fn(prog, c)
+    except AnalysisError:
+        # by role: the method of the loader whose result keys the per-thread containers.  If there is one and it does not hand out the
+        # interpreter's thread identity, that IS the failed clause (names, indices or anything a user can make equal for two live threads
+        # are not identities); the run still cannot judge the remaining rules
+        for m in c.methods.values():
+            if m.name.startswith("__") or len([a for a in m.node.args.args if a.arg not in ("self", "cls")]) > 0:
+                continue
+            keyed = False
+            for fn in c.methods.values():
+                for n in prog.walk_fn(fn):
+                    if isinstance(n, ast.Call) and isinstance(n.func, ast.Attribute) and n.func.attr == m.name and isinstance(n.func.value, ast.Name) and n.func.value.id in ("self", "cls", c.name):
+                        par = prog.parent(n)
+                        while isinstance(par, ast.NamedExpr):
+                            par = prog.parent(par)
+                        if isinstance(par, ast.Subscript) and container_of(par.value, containers, set()) is not None:
+                            keyed = True
+                        if isinstance(par, ast.Compare) or (isinstance(par, ast.Call) and isinstance(par.func, ast.Attribute) and par.func.attr in ("add", "remove", "discard", "pop", "get")):
+                            keyed = True
+            if keyed:
+                rets = [u(r.value)[:60] for r in ast.walk(m.node) if isinstance(r, ast.Return) and r.value is not None]
+                ctx.ob("R15.1", f"thread-key-is-the-interpreter's-thread-identity:{m.owner}", False, m.loc(),
+                       f"{m.name}() keys the per-thread state but returns {rets or '?'}, not threading.get_ident(): two live threads that get the same key share one "
+                       "override dictionary and one in-scope mark")
+        raise
     own = Own(prog, ident)
     cfgmod = c.mod
     ctx.extra["anchors"] = {"loader": c.qual, "instance": inst, "containers": containers, "thread_identity": ident.qual}
@@ -630,6 +655,12 @@ def rules(ctx: Ctx) -> None:
         risky = [x for x in risky if not (isinstance(x, ast.Call) and u(x.func) in ("self.get_ident", "threading.get_ident"))]
         ctx.ob("R15.8", "exit:nothing-that-can-fail-before-the-clean-up", not risky, loc(exi.mod, st),
                f"`{u(st)[:60]}` precedes the clean-up" + (f" and evaluates `{u(risky[0])[:40]}`, which can raise: the overrides and the in-scope mark then stay behind" if risky else " and cannot fail"))
+
+    # ---- R15.9 (= R12.2, memoising decorators on the loader's functions): a value read back inside a scope is the value that scope was given, coerced
+    # to the key's type - not what an equal value of another type (1 / True / 1.0 are one memo key) was coerced to earlier, by any thread
+    from .common import import_rules as _imp15
+
+    _imp15(ctx, "C12", {"R12.2": "R15.9"}, key_filter=lambda o: o.key.startswith("memoised") and (o.loc.split(":")[0].endswith(c.mod.path.split("/")[-1])))
 
 
 def _rooted_in_container(e: ast.AST, containers: dict[str, str]) -> bool:
